@@ -27,6 +27,7 @@ CONSTANTS MaxAge,     \* a proposal is dropped when clock - t > MaxAge   (60 s; 
           SysAlpha,   \* sequence of system-bounds records a BoundsUpdate may deliver (<<>> = all)
           RegAlpha,   \* sequence of [who, pref, lo, hi] a regular actor may propose  (<<>> = all)
           OpAlpha,    \* same for the operating-point actors                          (<<>> = all)
+          MaxBack,    \* a distribution result may answer the latest request or any of the MaxBack before it
           Fixed,      \* TRUE: the design as repaired by /repo 52a89e3 (the primary model).
                       \* FALSE: the design before that repair (kept for the named deviation)
           Mode        \* "history": one emitted history per transition; "sim": tlc -simulate; "trace"
@@ -38,13 +39,18 @@ VARIABLES R,            \* regular group      [b: bucket, c: bucket exists, m: _
           lastPartial,  \* last_result_partial_failure
           last,         \* what the last event handler computed and sent (intermediate values)
           rep,          \* targets carried by the latest reports  [r |-> regular, o |-> operating point]
+          reqs,         \* powers of all requests sent so far, oldest first (history variable: the view
+                        \* keeps only which of the answerable older requests differ from the latest)
           h             \* history of events (hidden by VIEW)
 
-vars == <<R, O, sys, clock, lastPartial, last, rep, h>>
-View == <<R, O, sys, clock, lastPartial, last, rep>>
+vars == <<R, O, sys, clock, lastPartial, last, rep, reqs, h>>
+\* OlderDiffers[b]: the request sent b requests before the latest exists and asked for another power
+\* (a late result for it is then a result for a request the targets have moved away from)
+OlderDiffers == [b \in 1..MaxBack |-> Len(reqs) > b /\ reqs[Len(reqs) - b] # reqs[Len(reqs)]]
+View == <<R, O, sys, clock, lastPartial, last, rep, OlderDiffers>>
 \* for runs with several workers: the depth bound reads h, so the depth belongs to the view there
 \* (otherwise which states get expanded depends on the workers' timing)
-ViewD == <<R, O, sys, clock, lastPartial, last, rep, Len(h)>>
+ViewD == <<R, O, sys, clock, lastPartial, last, rep, OlderDiffers, Len(h)>>
 
 SeqRange(s) == {s[i] : i \in DOMAIN s}
 
@@ -127,9 +133,10 @@ Handle(kind, q, s, must) ==
     /\ R' = x.R /\ O' = x.O
     /\ last' = [kind |-> kind, must |-> must, r |-> x.r, o |-> x.o, sent |-> Combine(x, Fixed)]
     /\ rep' = [r |-> x.R.m, o |-> x.O.m]
+    /\ reqs' = IF Combine(x, Fixed) = None THEN reqs ELSE Append(reqs, Combine(x, Fixed))
 
 \* _send_reports(ids) alone
-ReportOnly == /\ last' = Idle /\ rep' = [r |-> R.m, o |-> O.m] /\ UNCHANGED <<R, O>>
+ReportOnly == /\ last' = Idle /\ rep' = [r |-> R.m, o |-> O.m] /\ UNCHANGED <<R, O, reqs>>
 
 ----------------------------------------------------------------------------
 Init ==
@@ -138,6 +145,7 @@ Init ==
     /\ clock = 0 /\ lastPartial = FALSE
     /\ last = [Idle EXCEPT !.kind = "none"]
     /\ rep = [r |-> None, o |-> None]
+    /\ reqs = <<>>
     /\ h = <<SysRec(sys)>>
 
 \* _run: a proposal from a regular actor (must_send = TRUE)
@@ -160,14 +168,19 @@ BoundsUpdate(s) ==
     /\ UNCHANGED <<clock, lastPartial>>
     /\ h' = Append(h, SysRec(s))
 
-\* _run: a result from the power distributor
-Result(k) ==
+\* _run: a result from the power distributor for the request sent `back` requests before the latest
+\* one (0 = the latest).  Results can be late: the distributor answers every request it started, and
+\* proposals / bounds updates may have moved the targets since.  The design does not look at the
+\* answered request's power: on the first PartialFailure it recomputes the CURRENT regular +
+\* operating-point target (must_send), so the effect does not depend on `back`.
+Answerable(back) == back = 0 \/ back < Len(reqs)
+Result(k, back) ==
     /\ IF k = "partial" /\ ~lastPartial
        THEN lastPartial' = TRUE /\ Handle("none", NoQ, sys, TRUE)
        ELSE /\ lastPartial' = (IF k = "success" THEN FALSE ELSE lastPartial)
             /\ ReportOnly
     /\ UNCHANGED <<sys, clock>>
-    /\ h' = Append(h, [a |-> "result", k |-> k])
+    /\ h' = Append(h, [a |-> "result", k |-> k, back |-> back])
 
 \* time passes (one tick = 40 s); the 1 s drop_old_proposals timer has removed what is too old.
 \* Nothing is recalculated, sent or reported.
@@ -177,7 +190,7 @@ Tick ==
     /\ clock' = clock + 1
     /\ R' = DropOld(R) /\ O' = DropOld(O)
     /\ last' = Idle
-    /\ UNCHANGED <<sys, lastPartial, rep>>
+    /\ UNCHANGED <<sys, lastPartial, rep, reqs>>
     /\ h' = Append(h, [a |-> "tick"])
 
 Guard == Mode \in {"history", "sim"} /\ Len(h) < MaxDepth
@@ -196,9 +209,14 @@ BoundsStep == /\ Guard
               /\ IF Mode = "sim" THEN LET s == RandomElement(SysSet) IN BoundsUpdate(s)
                  ELSE \E s \in SysSet : BoundsUpdate(s)
               /\ EmitRule
+\* exhaustive mode: late results (back > 0) only for PartialFailure, the one kind whose handling sends
 ResultStep == /\ Guard
-              /\ IF Mode = "sim" THEN LET k == RandomElement(Results) IN Result(k)
-                 ELSE \E k \in Results : Result(k)
+              /\ IF Mode = "sim"
+                 THEN LET k == RandomElement(Results)
+                          b == RandomElement(0..MaxBack)
+                      IN Result(k, IF Answerable(b) THEN b ELSE 0)
+                 ELSE \E k \in Results, b \in 0..MaxBack :
+                         (b = 0 \/ k = "partial") /\ Answerable(b) /\ Result(k, b)
               /\ EmitRule
 TickStep == Guard /\ Tick /\ EmitRule
 SimEmit == (Mode = "sim" /\ Len(h) = MaxDepth) => Emit(h)
